@@ -55,8 +55,6 @@ func NativeTable() *engine.NativeTable {
 			"math.Max":                  f(math.Max),
 			"math.Min":                  f(math.Min),
 			"strings.Title":             f(strings.Title),
-			"strings.ToLower":           f(strings.ToLower),
-			"strings.ToUpper":           f(strings.ToUpper),
 		},
 		Globals: map[string]interface{}{
 			"go/types.Typ":      types.Typ,
